@@ -294,4 +294,22 @@ PROPS["C13"] = dict(
     fuzz=[("FuzzC13Image", 150), ("FuzzC13PKCS7", 150)],
 )
 
+PROPS["C14"] = dict(
+    pkg="c14",
+    level="exploration",
+    technique="property-based testing (rapid) and native fuzzing through sandboxed worker processes, one entry point per decoder; static list of termination call sites used as coverage target only",
+    level_text=("One sandboxed entry point per decoder the statement names: signature database / list / data, authentication descriptor (reader and Unmarshal), WIN_CERTIFICATE (+UEFI_GUID), load option and device path incl. Format() of every node, "
+                "UTF-16 strings (ParseUtf16Var, Efistring, ReadNullString), boot order and boot entry through the in-memory store, supported-signature list, attribute-prefixed variable file (FSWrapper and legacy), typed getters "
+                "(Getdb/Getdbx/GetPK/GetKEK/GetSecureBoot/GetSetupMode/GetLoaderEntrySelected), PEM key and certificate, GUID text and bytes, and TestFS.WriteVar of small unsigned secure-boot values. Inputs are valid encodings from the reference encoders "
+                "mutated by truncation at any point, 32-/16-bit fields overwritten with hostile constants, byte noise, trailing garbage, emptiness, and random bytes up to 64 KiB, plus fixed inputs for every shape that was a defect on the pinned tree. "
+                "Oracle as C13 (value or error; no panic, process exit, reproduced timeout, or allocation above 16 MiB + 256 x input). Thorough adds native fuzzing of all entry points with one input."),
+    level_note=("Trusts the sandbox classifier (self-checked per run). The static list of log.Fatal*/os.Exit/panic call sites (go/parser, non-cmd non-test packages; recorded in evidence under extra.static_termination_call_sites) is a coverage target: "
+                "fuzzing shows reachability, it cannot show that the remaining sites (writers to a caller-supplied buffer, asntest helpers) are unreachable."),
+    rule=("case = (entry point, input). Non-trivial = input of >= 4 bytes that is not the unmodified valid encoding; distinct by SHA-256 of (entry, input)."),
+    assumptions=["allocation measured with runtime/metrics in the worker"],
+    quick=dict(checks=15000, shards=4, timeout=1200, shrinktime=20),
+    thorough=dict(checks=150000, shards=16, timeout=3400, shrinktime=60),
+    fuzz=[("FuzzC14", 180)],
+)
+
 NOT_APPLICABLE = _NA()
